@@ -1,7 +1,7 @@
 (* Entry points of the executable model, by name.  Used both by the extracted
    OCaml driver and by vm_compute in generated cases files. *)
 From Coq Require Import ZArith QArith List String Bool.
-From SKC Require Import Model.Val Base.QBool Base.QList Base.QRank Model.Dominance Model.Agg Model.Electre Model.Result Model.Select Model.Transform Model.Weights Model.Filters.
+From SKC Require Import Model.Val Base.QBool Base.QList Base.QRank Model.Dominance Model.Agg Model.Electre Model.Result Model.Select Model.Transform Model.Weights Model.Filters Model.Untie.
 Import ListNotations.
 Local Open Scope string_scope.
 
@@ -202,6 +202,18 @@ Definition run_filter (a : list Z * list (Z * cond) * bool * list (list Q)) : va
 Definition run_nondominated (a : bool * list bool * list (list Q)) : val :=
   let '(strict, objs, rows) := a in eL eB (nondominated strict objs rows).
 
+(* ---- C18: untied ranks and comparator tables ------------------------------------------------ *)
+Definition run_untie (r : list nat) : val := eL eN (untied_rank r).
+(* names (reference order), rankings as lists of (label, rank) -> frame columns + cov/hamming/r2 tables *)
+Definition run_cmp (a : list Z * list (list (Z * nat))) : val :=
+  let (names, rks) := a in
+  let cs := map (aligned names) rks in
+  VL [eTable eQ cs;
+      eTable eQ (map (fun v => map (fun u => Qred (scov v u)) cs) cs);
+      eTable eQ (map (fun v => map (fun u => Qred (hamming v u)) cs) cs);
+      eTable eQ (map (fun v => map (fun u => Qred (cov_r v u)) cs) cs);
+      eL eQ (map pvar_r cs)].
+
 Definition dispatch (fn : string) (arg : val) : val :=
   if fn =? "dominance" then with_arg (dP2 (dL dB) dMatrix) run_dominance arg
   else if fn =? "rank" then with_arg (dP2 dB (dL dQ)) run_rank arg
@@ -218,6 +230,8 @@ Definition dispatch (fn : string) (arg : val) : val :=
   else if fn =? "weight_cores" then with_arg (dP4 (dL dB) dMatrix dB dB) run_weight_cores arg
   else if fn =? "filter" then with_arg (dP4 (dL dZ) (dL (dP2 dZ dCond)) dB dMatrix) run_filter arg
   else if fn =? "nondominated" then with_arg (dP3 dB (dL dB) dMatrix) run_nondominated arg
+  else if fn =? "untie" then with_arg (dL dN) run_untie arg
+  else if fn =? "cmp" then with_arg (dP2 (dL dZ) (dL (dL (dP2 dZ dN)))) run_cmp arg
   else if fn =? "wsm" then with_arg dDM run_wsm arg
   else if fn =? "ratio" then with_arg dDM run_ratio arg
   else if fn =? "refpoint" then with_arg dDM run_refpoint arg
